@@ -4,7 +4,7 @@ from mc import engine, spaces, searchcore as sc
 ID = 'C04'
 LEVEL = 'exploration'
 INCLUDE = ['n_pretest_max', 'n_designs', 'budget_range', 'n_geos_max', 'treatment_share_range', 'iroas',
-           'treatment_geos_range', 'n_test', 'min_corr', 'sig_level', 'power_level', 'flevel']
+           'treatment_geos_range', 'n_test', 'min_corr', 'sig_level', 'power_level', 'flevel', 'rho_max']
 RULE = ('Engine A: panels with T in {12,14,16} (incl. a missing cell and shuffled rows) x DEV(3..5, d) over window, '
         'exclusions (eligibility rows, share/budget/n_geos_max), n_designs and statistical parameters, both searches, '
         'EVERY position of the result list; REUSE: the same on a data object that already served another matched-markets '
